@@ -51,10 +51,10 @@ def is_trivial(line, mo):
 
 def generate(rng, tier):
     yield "const rows", "const"
-    N = 25 if tier == "quick" else 40
+    N = 25 if tier == "quick" else 60
     for n in range(0, N + 1):
         yield f"rows {n}", "describe-packets"
-    for n in range(0, 14 if tier == "quick" else 26):
+    for n in range(0, 14 if tier == "quick" else 40):
         for i in range(-1, n + 2):
             yield f"index {n} {i}", "parse-index"
 
